@@ -2,10 +2,15 @@ package main
 
 // C28 — key derivation and signatures are consistent.
 //
-// Implementation under test (public API only, no hook):
+// Implementation under test (public API; one hook, pseudohsm.VerifNew = New with explicit scrypt
+// parameters, used by the stages of store.go):
 //   chainkd.RootXPrv / XPrv.XPub / XPrv.Derive / XPub.Derive / XPrv.Sign / XPub.Verify,
-//   pseudohsm.EncryptKey / DecryptKey, HSM.ImportKeyFromMnemonic / XSign / LoadChainKDKey /
-//   ResetPassword on a scratch key directory.
+//   ExpandedPrivateKey.Sign / Public, pseudohsm.EncryptKey / DecryptKey, HSM.XCreate /
+//   ImportKeyFromMnemonic / XSign / LoadChainKDKey / ResetPassword / UpdateKeyAlias / XDelete /
+//   Backup / Restore on scratch key directories.
+// Stages (1)-(4) are in this file, (5) concurrent signing in conc.go, (6)-(9) the key store as a
+// whole (life cycles, signing while the key file is rewritten, failing rewrites, duplicate
+// import) in store.go, their Coq cases in storemodel.go.
 //
 // Direct oracle (property predicate on implementation outputs only):
 //   * xprv.Derive(path).XPub() == xprv.XPub().Derive(path), and no panic, for every key
@@ -35,6 +40,7 @@ import (
 	"os"
 	"path/filepath"
 	"strings"
+	"time"
 
 	"github.com/pborman/uuid"
 	"golang.org/x/crypto/scrypt"
@@ -1100,8 +1106,15 @@ func run(c *Ctx) error {
 			return err
 		}
 	}
-	c.Stats.Rule = "cases: (1) derivation: a root key from a seed (lengths 0..128) or a raw 64-byte xprv (boundary scalars: carry ripple, near 2^255, near 2^256 = carry-out panic, zero) and a non-hardened path of depth 0..8 with arbitrary selectors; (2) signing: a seed-derived key, a message of 0..132 bytes and verification attempts (own key, other key, other message, bit-flipped / non-canonical / truncated signature, random public key); (3) key files: EncryptKey/DecryptKey with the correct and wrong passwords and tampered fields; (4) the HSM on a scratch directory (import from mnemonic, XSign, LoadChainKDKey, ResetPassword). Distinct = distinct inputs; non-trivial = path depth >= 1 for derivation, every signing / key-store case. The oracle is the property itself on the implementation's outputs; every case is also evaluated by the Coq model with table oracles for the primitives."
-	header := "From Coq Require Import List NArith Bool.\nFrom Verif Require Import Outcome Cmp.\nFrom C28 Require Import Model Run.\nImport ListNotations.\nOpen Scope N_scope.\n"
+	// (5) several goroutines sign at once; (6)-(8) the key store as a whole: see conc.go, store.go
+	t0 := time.Now()
+	concStage(c)
+	stageTime("concurrent signing", t0)
+	if err := storeStages(c); err != nil {
+		return err
+	}
+	c.Stats.Rule = "cases: (1) derivation: a root key from a seed (lengths 0..128) or a raw 64-byte xprv (boundary scalars: carry ripple, near 2^255, near 2^256 = carry-out panic, zero) and a non-hardened path of depth 0..8 with arbitrary selectors; (2) signing: a seed-derived key, a message of 0..132 bytes and verification attempts (own key, other key, other message, bit-flipped / non-canonical / truncated signature, random public key); (3) key files: EncryptKey/DecryptKey with the correct and wrong passwords and tampered fields; (4) the HSM on a scratch directory (import from mnemonic, XSign, LoadChainKDKey, ResetPassword); (5) 2..12 goroutines, each with its own seed-derived keys (root and children at several paths, as XPrv and as ExpandedPrivateKey), sign the same messages first alone and then all at once: every concurrent signature must verify under the signer's own xpub, equal the signature made alone, and not verify under another signer's key; (6) key-store life cycles on a real HSM (hook VerifNew: scrypt N=2, P=1; a few on pseudohsm.New): seeded sequences of XCreate / ImportKeyFromMnemonic / ResetPassword (right and wrong old password) / UpdateKeyAlias / XDelete (right and wrong password) / re-opening the store / Backup -> JSON -> Restore into an empty or partly filled store (keys already there, taken aliases), and after EVERY operation for EVERY live key: XSign with the current password equals derive+sign with the key's xprv and verifies, another password (an earlier one, another key's, a variation) is refused; the first sequences are also cases of the Coq store model (every error class, loaded xprv, Backup image and all key files after every write compared); (7) XSign of a key while another goroutine rewrites its file (ResetPassword to the same password, UpdateKeyAlias, both in turn, and both from two goroutines at once): every XSign and every rewrite with the correct password must succeed; (8) ResetPassword / UpdateKeyAlias failing half way under a file size limit: the key must still open with its password; (9) the same mnemonic imported twice under two aliases: a password the key is stored under must still open it. Distinct = distinct inputs; non-trivial = path depth >= 1 for derivation, every signing / key-store case. The oracle is the property itself on the implementation's outputs; every case is also evaluated by the Coq model with table oracles for the primitives."
+	header := "From Coq Require Import List NArith Bool.\nFrom Verif Require Import Outcome Cmp.\nFrom C28 Require Import Model Store Run.\nImport ListNotations.\nOpen Scope N_scope.\n"
 	c.Cases.Shard = 20
 	return c.Cases.Write(c.Out, header, "list bytes", "obs_eqb")
 }
